@@ -277,6 +277,25 @@ class Exec:
             self.unsupported(node, 'no declared type for field %s.%s' % (getattr(v, 'cls', None), attr))
         return ty
 
+    def infer_field_type(self, cls, attr):
+        """undeclared attribute: take its type from a constant assigned to it in an __init__ of the class hierarchy"""
+        if cls is None:
+            return None
+        import ast as _ast
+        for ci in self.mro_infos(cls):
+            init = ci.methods.get('__init__')
+            if init is None:
+                continue
+            for n in _ast.walk(init.node):
+                if isinstance(n, _ast.Assign) and len(n.targets) == 1 and isinstance(n.targets[0], _ast.Attribute) \
+                        and isinstance(n.targets[0].value, _ast.Name) and n.targets[0].value.id == 'self' \
+                        and n.targets[0].attr == attr and isinstance(n.value, _ast.Constant):
+                    v = n.value.value
+                    for py, ty in ((bool, BOOL), (int, INT), (float, REAL), (bytes, BYTES), (str, STR)):
+                        if isinstance(v, py):
+                            return ty
+        return None
+
     def read_field(self, st, ref, attr, ty):
         key = ('f', attr, tyname(ty))
         arr = self.heap_get(st, key, z3.ArraySort(I, sort_of(ty)))
